@@ -49,6 +49,7 @@ type c08Run struct {
 	Len  int   `json:"len"`
 	Body bool  `json:"body"`
 	// writeseq: several WriteMsg calls on one connection; message i is Sent[i] bytes of value 200+i
+	Slow bool   `json:"slow"` // read run over a link slower than the reader's timeout
 	Oks  []bool `json:"oks"`  // per call: accepted (no error)
 	Wire []int  `json:"wire"` // every byte the peer received
 }
@@ -95,10 +96,14 @@ type c08Scenario struct {
 	codes []int32 // for transport level 4-byte frames
 	mid   int     // >0: close after this many bytes of the last frame (strict prefix)
 	cuts  []int
+	slow  bool // a slow link: the reader's timeout is 300 ms and the stream stands still for 450 ms at every cut
 }
 
 func c08Execute(id int, sc c08Scenario, rng *rand.Rand, pause time.Duration) c08Run {
-	run := c08Run{Op: "read", ID: id, Level: sc.level, Mode: sc.md, Sent: sc.lens, Close: "boundary", Cuts: sc.cuts, Got: []c08Got{}}
+	run := c08Run{Op: "read", ID: id, Level: sc.level, Mode: sc.md, Sent: sc.lens, Close: "boundary", Cuts: sc.cuts, Got: []c08Got{}, Slow: sc.slow}
+	if sc.slow {
+		pause = 450 * time.Millisecond
+	}
 	if sc.mid > 0 {
 		run.Close = "mid"
 	}
@@ -189,6 +194,9 @@ func c08Execute(id int, sc c08Scenario, rng *rand.Rand, pause time.Duration) c08
 	ctx, cancel := context.WithCancel(context.Background())
 	defer cancel()
 	cfg := transport.TCPConnConfig{Ctx: ctx, Host: ln.Addr().String(), Timeout: 20 * time.Second}
+	if sc.slow {
+		cfg.Timeout = 300 * time.Millisecond
+	}
 	match := func(b []byte) int {
 		if k := len(run.Got); k < len(bodies) && bytes.Equal(bodies[k], b) {
 			return k + 1 // the message expected at this position (equal bodies, e.g. empty ones, are interchangeable)
@@ -490,6 +498,24 @@ func init() {
 			add("transport", md, []int{24, 4, 40}, []int32{-404})
 			add("transport", md, []int{20, 508, 512}, nil)
 			add("transport", md, []int{}, nil)
+		}
+		// a link slower than the reader's patience: the stream stands still inside a header, right behind a header, inside a body
+		for _, md := range []string{"abridged", "intermediate"} {
+			h := map[string]int{"abridged": 1, "intermediate": 4}[md]
+			for _, level := range []string{"mode", "transport"} {
+				ann := 0
+				if level == "mode" {
+					ann = h
+				}
+				lens := []int{24, 40, 20}
+				f1 := ann + h + 24 // end of the first frame
+				for _, cut := range []int{ann + h + 10, f1 + h, f1 + h + 20, f1 + 1} {
+					if cut == f1+1 && md == "abridged" {
+						continue
+					}
+					scs = append(scs, c08Scenario{level: level, md: md, lens: lens, cuts: []int{cut}, slow: true})
+				}
+			}
 		}
 		// exhaustive compositions of a short stream (every subset of cut points)
 		for _, md := range []string{"abridged", "intermediate"} {
